@@ -10,10 +10,11 @@ EXTENDS Lsp, Json
 
 CONSTANTS Deviations, MaxHist
 Files == {"main", "inc", "cfg"}
-TextsOf == [main |-> {"ma", "mb", "mx"}, inc |-> {"ia", "ib", "ix"}, cfg |-> {"ca", "cb"}]
+TextsOf == [main |-> {"ma", "mb", "mx"}, inc |-> {"ia", "ib", "ix", "ir"}, cfg |-> {"ca", "cb"}]          \* "ir" imports main: a cycle when main imports inc
 EntryOf(t) == IF t = "cb" THEN "gone" ELSE "main"          \* config text "cb" names an entry file that does not exist
 ImportsInc(t) == t \in {"ma", "mx"}
-Broken(t) == t \in {"mx", "ix"}
+Broken(t) == t \in {"mx", "ix", "ir"}
+Cyclic(fm) == fm["main"] # NoText /\ ImportsInc(fm["main"]) /\ fm["inc"] = "ir"
 TreeOf(fm) == IF fm["main"] = NoText THEN {} ELSE {"main"} \cup (IF ImportsInc(fm["main"]) /\ fm["inc"] # NoText THEN {"inc"} ELSE {})
 Seen(fm) == [f \in TreeOf(fm) |-> fm[f]]
 DiagOf(fm, g) == IF Broken(fm[g]) THEN g \o "/" \o fm["main"] \o (IF "inc" \in TreeOf(fm) THEN fm["inc"] ELSE "") ELSE "none"
@@ -57,6 +58,11 @@ DidChange2(f, t1, t2) == /\ s.alive /\ s.buf[f] # NoText /\ t1 # t2
                          /\ UNCHANGED <<disk, hist>>
 (* any message about a document that is not a file *)
 NonFile == /\ s.alive /\ s' = (IF NonFileKills(Deviations) THEN Die(s, "NonFileUriPanics") ELSE s) /\ UNCHANGED <<disk, hist>>
+(* messages outside the protocol: malformed parameters, an unknown request (never answered = lost for the client),   *)
+(* a request for a file whose path is not UTF-8                                                                        *)
+Malformed == /\ s.alive /\ s' = (IF MalformedKills(Deviations) THEN Die(s, "MalformedParamsPanic") ELSE s) /\ UNCHANGED <<disk, hist>>
+Unknown == /\ s.alive /\ s' = (IF UnknownUnanswered(Deviations) THEN Die(s, "UnknownRequestNeverAnswered") ELSE s) /\ UNCHANGED <<disk, hist>>
+NonUtf8(kind) == /\ s.alive /\ s' = (IF NonUtf8KillsMsg(kind, s.has, Deviations) THEN Die(s, "NonUtf8PathPanics") ELSE s) /\ UNCHANGED <<disk, hist>>
 DidClose(f) == /\ s.alive /\ s.buf[f] # NoText
                /\ LET b == [s.buf EXCEPT ![f] = NoText]
                       fm == NewS(b) IN s' = Close(s, disk, f, Ok(b), "main", TreeNow(b), LAMBDA g : DiagOf(fm, g), Deviations)
@@ -65,7 +71,8 @@ DidClose(f) == /\ s.alive /\ s.buf[f] # NoText
 (* an answered rename at a symbol mutates the cache in the coded reading.                                            *)
 Request(kind, f, pc) ==
   /\ s.alive
-  /\ LET d == IF s.has /\ f \in TreeOf(s.an) THEN DeathOf(kind, LT, PosOf[pc][1], PosOf[pc][2], Deviations) ELSE "" IN
+  /\ LET d == IF CycleKills(kind, s.has, Cyclic(s.an), Deviations) THEN "WorkspaceSymbolRecursesImports"
+              ELSE IF s.has /\ f \in TreeOf(s.an) THEN DeathOf(kind, LT, PosOf[pc][1], PosOf[pc][2], Deviations) ELSE "" IN
      IF d # "" THEN s' = Die(s, d)
      ELSE IF kind = "rename" /\ pc = "valid" /\ s.has /\ f \in TreeOf(s.an) THEN s' = Renamed(s, Deviations)
      ELSE s' = s
@@ -73,7 +80,7 @@ Request(kind, f, pc) ==
   /\ UNCHANGED disk
 
 Notif == \E f \in Files : (\E t \in TextsOf[f] : DidOpen(f, t) \/ DidChange(f, t)) \/ DidClose(f)
-NextDesign == Notif \/ NonFile \/ (\E f \in {"main", "inc"} : DidChange0(f) \/ \E t1, t2 \in TextsOf[f] : DidChange2(f, t1, t2)) \/ \E kind \in Kinds, f \in {"main", "inc", "other"}, pc \in PosClasses : Request(kind, f, pc)
+NextDesign == Notif \/ NonFile \/ Malformed \/ Unknown \/ (\E kind \in Kinds : NonUtf8(kind)) \/ (\E f \in {"main", "inc"} : DidChange0(f) \/ \E t1, t2 \in TextsOf[f] : DidChange2(f, t1, t2)) \/ \E kind \in Kinds, f \in {"main", "inc", "other"}, pc \in PosClasses : Request(kind, f, pc)
 NextGen == Notif \/ Request("rename", "main", "valid")
 SpecDesign == Init /\ [][NextDesign]_vars
 SpecGen == Init /\ [][NextGen]_vars
